@@ -2,11 +2,12 @@
 From DG Require Import Base.Util Base.Sexp Base.Reach Model.Graph Model.Walk Model.RunC15 Model.RunC02
   Model.RunC14 Model.Prune Model.RunC17 Model.Builder.
 
-Definition dec_wmod (media parse_ok mk deps tdep : sexp) : option wmod :=
+Definition dec_wmod (hr ht : N) (media parse_ok mk deps tdep : sexp) : option wmod :=
   do media' <- dec_media media; do ok <- as_bool parse_ok; do mk' <- dec_mkind mk;
   do deps' <- as_list_of (as_pair dec_dep as_bool) deps;
   do tdep' <- as_option dec_typesdep tdep;
-  Some {| wm_media := media'; wm_parse_ok := ok; wm_kind := mk'; wm_deps := deps'; wm_tdep := tdep' |}.
+  Some {| wm_hash_raw := hr; wm_hash_text := ht; wm_media := media'; wm_parse_ok := ok; wm_kind := mk';
+          wm_deps := deps'; wm_tdep := tdep' |}.
 
 Definition dec_wresp (s : sexp) : option wresp :=
   match s with
@@ -14,8 +15,8 @@ Definition dec_wresp (s : sexp) : option wresp :=
   | L [A 1] => Some WError
   | L [A 2; A to] => Some (WRedirect to)
   | L [A 3; A final] => Some (WExternal final)
-  | L [A 4; A final; media; ok; mk; deps; tdep] =>
-      do wm <- dec_wmod media ok mk deps tdep; Some (WModule final wm)
+  | L [A 4; A final; A hr; A ht; media; ok; mk; deps; tdep] =>
+      do wm <- dec_wmod hr ht media ok mk deps tdep; Some (WModule final wm)
   | _ => None
   end.
 
@@ -24,11 +25,15 @@ Definition dec_sclass (s : sexp) : option sclass :=
 
 Definition dec_world (s : sexp) : option world :=
   match s with
-  | L [resps; classes; files; A maxr] =>
+  | L [resps; reloads; classes; files; https; lock; A maxr] =>
       do resps' <- as_list_of (as_pair as_atom dec_wresp) resps;
+      do reloads' <- as_list_of (as_pair as_atom dec_wresp) reloads;
       do classes' <- as_list_of (as_pair as_atom dec_sclass) classes;
       do files' <- as_atoms files;
-      Some {| w_resp := resps'; w_class := classes'; w_file := files'; w_max_redirects := N.to_nat maxr |}
+      do https' <- as_atoms https;
+      do lock' <- as_option (as_list_of (as_pair as_atom as_atom)) lock;
+      Some {| w_resp := resps'; w_resp_reload := reloads'; w_http := https'; w_lock := lock';
+              w_class := classes'; w_file := files'; w_max_redirects := N.to_nat maxr |}
   | _ => None
   end.
 
@@ -71,7 +76,9 @@ Definition enc_bgraph (g : bgraph) : sexp :=
      set_of (map (fun p => of_atoms [fst p; snd p]) (bg_redirects g));
      L (map (fun p => L [A (fst p); enc_deps (snd p)]) (bg_imports g));
      of_bool (bg_has_node g);
-     set_of (map (fun p => L [A (fst p); of_bool (snd p)]) (bg_loads g))].
+     set_of (map (fun c => L [A (lc_spec c); of_bool (lc_asset c); of_bool (lc_reload c);
+                              of_option A (lc_checksum c)]) (bg_calls g));
+     set_of (map (fun p => of_atoms [fst p; snd p]) (bg_lock_sets g))].
 
 Definition dec_imports (s : sexp) : option (list (spec * list dep)) :=
   as_list_of (as_pair as_atom dec_deps) s.
